@@ -5,6 +5,7 @@ import ast
 from typing import Dict, List, Optional, Set, Tuple
 
 from .. import memo, fx, q
+from ..normalize import frozen_functions
 from ..core import AnchorError, Ctx, FuncInfo, dotted, norm, walk_no_nested
 
 ID = "C10"
@@ -81,6 +82,10 @@ def public_entries(ctx: Ctx) -> List[FuncInfo]:
             # module-private helpers are reached through the entry points that call them
             continue
         if name in ("main", "read_input", "print_step", "in_ipynb"):
+            continue
+        if name.startswith("_") and not name.startswith("__") and fi.qualname not in frozen_functions() and frozen_functions():
+            # a private helper that is not in the reference inventory is not an entry point of the library: it is
+            # reached (and its effects are accounted for) through the functions that call it
             continue
         out.append(fi)
     return out
